@@ -208,16 +208,21 @@ PROPS['C09'] = Prop(
 )
 
 PROPS['C10'] = Prop(
-    functions=['policy:Enforcer.set_rules'],
+    functions=['policy:Enforcer.set_rules', '_cache_handler:read_cached_file', '_cache_handler:delete_cached_file'],
     bounded=[('bounded.loader', 'c10')],
     level='other',
     technique='bounded stand-in: exhaustive short and random long file-operation histories on real files with a controlled clock; set_rules proved deductively',
     explanation='BOUNDED: all histories of length <= 3 (quick) / 4 (thorough) over {write, empty, delete} x {main file, '
                 'directory file} + load, and random histories up to 14 steps over all operations and four files, plain and '
                 'deprecated defaults, starting with and without a main file; after every load/enforce the long-lived rule '
-                'store is compared with a fresh enforcer. No clause is proved beyond set_rules.',
+                'store is compared with a fresh enforcer. PROVED: read_cached_file re-reads exactly when forced, uncached '
+                'or the file is strictly newer than the cached mtime, otherwise serves the cached text unchanged; a '
+                'missing file is reported as reloaded with an empty mapping; only EACCES is turned into '
+                'ConfigFilesPermissionDeniedError; delete_cached_file removes exactly one entry; set_rules as specified. '
+                'The composition of these helpers in load_rules is not proved.',
     assumptions=['every change advances modification times of the file and of its directory (the property\'s own assumption)',
-                 'removing a whole policy directory after it was loaded is outside the statement'],
+                 'removing a whole policy directory after it was loaded is outside the statement',
+                 'ghost file system (fs_exists, fs_mtime, fs_content, fs_eacces) constant during one call: the race "file vanishes between getmtime and open" is not modelled'],
 )
 
 PROPS['C11'] = Prop(
